@@ -229,7 +229,7 @@ def _run(ctx: Ctx) -> None:
 CHECKS = {
     "C19": {
         "level": "fault_enumeration",
-        "plans": lambda tier: [Plan("hostile", {}, share=0.6, chunk=50, label="hostile/decoders-and-verifiers")],
+        "plans": lambda tier: [Plan("hostile", {}, share=1.0, chunk=50, label="hostile/decoders-and-verifiers")],
         "rule": (
             "hostile: one evaluation = one message written by a malicious peer (a cfilter whose coded set is runs of one octet up to "
             "64 KiB and noise under a drawn element count; a merkle branch of 0..5000 hashes of right and wrong widths with indexes "
